@@ -162,3 +162,21 @@ Proof.
   destruct (dirty_primary_only_midreport f e Hh Hne Hd) as [w [r [Hin [He _]]]].
   destruct (io_error_status f e w r Hh Hin) as [[A _]|[_ [B C]]]; [congruence|]. split; assumption.
 Qed.
+
+(* the class of F-C20b in words *)
+Lemma known_b_reading : forall f e, known_b f e = true ->
+  f_verbose_off f = true /\
+  ((exists r, decide f = Rejected r /\ r <> UsageConflict) \/
+   (exists p, decide f = Plan p /\
+      (e_read e = false \/ (e_read e = true /\ p_process p = true /\ e_process e = false /\ creates_ok e (p_creates p) = true)))) /\
+  creates_ok e (opt_list (f_log_file f)) = true.
+Proof.
+  intros f e H. unfold known_b in H. apply andb_true_iff in H. destruct H as [Hv H]. split; [exact Hv|].
+  unfold ends_by_logger in H. destruct (decide f) as [[| |]| |p] eqn:Hd; try discriminate.
+  - split; [left; exists PrettyWithoutJson; split; [reflexivity|discriminate]|exact H].
+  - split; [left; exists BriefWithoutHuman; split; [reflexivity|discriminate]|exact H].
+  - apply andb_true_iff in H. destruct H as [Hl H]. split; [|exact Hl]. right. exists p. split; [reflexivity|].
+    destruct (e_read e); cbn in H; [|left; reflexivity]. right.
+    apply andb_true_iff in H. destruct H as [H Hp]. apply andb_true_iff in H. destruct H as [Hc Hpp].
+    apply negb_true_iff in Hp. repeat split; assumption.
+Qed.
